@@ -92,7 +92,7 @@ func (h *transportHandler) HandleLinkLost(lnk link.Link) {
 		defer verifhook.Event("tc.lost", h.c, lnk) // verif: runs last, still under the lock
 		// fast path: clear by uuid
 		luuid := lnk.GetUUID()
-		if el, elOk := h.c.links[luuid]; elOk {
+		if el, elOk := h.c.links[luuid]; elOk && el.lnk == lnk {
 			delete(h.c.links, luuid)
 			h.c.flushEstablishedLink(el, false)
 			broadcast()
